@@ -426,7 +426,7 @@ func c12sys(sc *sim.Scenario, env *sim.Env) *sim.Violation {
 		}
 	}
 	if len(onpc) > 0 {
-		s.CPU.OnPC = onpc
+		installHooks(&s.CPU, onpc)
 	}
 	// second hook set for the second call: as many hooks, at addresses visited by the second
 	// call, preferably in banks the first set does not touch
@@ -485,7 +485,7 @@ func c12sys(sc *sim.Scenario, env *sim.Env) *sim.Violation {
 		ret = s.RunUntil(target, budget)
 		if again {
 			if len(onpc2) > 0 {
-				s.CPU.OnPC = onpc2 // the host replaces its hooks between two calls (same number of hooks)
+				installHooks(&s.CPU, onpc2) // the host replaces its hooks between two calls (same number of hooks)
 			}
 			ret = s.RunUntil(target, budget)
 		}
@@ -812,9 +812,7 @@ func c12bare(sc *sim.Scenario, env *sim.Env) *sim.Violation {
 				}
 				opc := mem.Peek(fetch)
 				opd := mem.Peek(fetch&0xFF0000 | uint32(uint16(fetch)+1))
-				if r.PCL() == cbAddr && !hasIRQ {
-					visits++
-				}
+				atHook := r.PCL() == cbAddr && !hasIRQ
 				stepNo++
 				stoppedBefore := stopped
 				readsAtStepStart = mem.Reads
@@ -825,6 +823,9 @@ func c12bare(sc *sim.Scenario, env *sim.Env) *sim.Violation {
 					_ = pv // a crashing Step is C08's business, not this property's
 					st.Abort("step_panic")
 					return nil
+				}
+				if atHook && mem.Reads > readsAtStepStart {
+					visits++ // an instruction was fetched there (a step that reads nothing, e.g. a CPU idling in WAI, fetches none)
 				}
 				st.SimCycles += uint64(cyc)
 				ra := cpu.Regs()
